@@ -1,6 +1,6 @@
 (* C10 — a future is completed at most once and reports one consistent outcome.
    Only statements; every proof is `exact <lemma>`. *)
-From Asynq Require Import Base Futures proofs.FuturesProofs TaskFut proofs.TaskFutProofs.
+From Asynq Require Import Base Futures proofs.FuturesProofs BatchFut proofs.BatchFutProofs TaskFut proofs.TaskFutProofs.
 
 Theorem C10_single_assignment : forall s oc, out s = Some oc ->
   (forall v, step s (OSetValue v) = (s, RRaise E_ALREADY)) /\
@@ -133,3 +133,126 @@ Theorem C10_task_compute_once : forall s o,
   (truns (fst (tstep s o)) <= S (truns s))%nat /\ (tout s <> None -> truns (fst (tstep s o)) = truns s).
 Proof. exact task_compute_once. Qed.
 Print Assumptions C10_task_compute_once.
+
+(* ---- "... even if another subscriber raises an Exception": WHICH Exception class a subscriber
+   raises (AssertionError, ValueError, KeyError, RuntimeError, StopIteration, a user-defined subclass,
+   asynq's own FutureIsAlreadyComputed, ... - Futures.xcls) is irrelevant: relabelling the classes of
+   all raises by an arbitrary function changes no op result, no callback record, no run count and
+   nobody's registration - per operation, per op list, and for every case of the correspondence ---- *)
+
+Theorem C10_raise_class_step : forall f s o,
+  step (recls_state f s) (recls_op f o) = (recls_state f (fst (step s o)), snd (step s o)).
+Proof. exact step_recls. Qed.
+Print Assumptions C10_raise_class_step.
+
+Theorem C10_raise_class_notify : forall f snap live,
+  notify (map (recls_sub f) snap) (map (recls_sub f) live) =
+  (map (recls_sub f) (fst (notify snap live)), snd (notify snap live)).
+Proof. exact notify_recls. Qed.
+Print Assumptions C10_raise_class_notify.
+
+Theorem C10_raise_class_irrelevant : forall f k p o ops,
+  run_case k p o (map (recls_op f) ops) = run_case k p o ops.
+Proof. exact raise_class_irrelevant. Qed.
+Print Assumptions C10_raise_class_irrelevant.
+
+Theorem C10_unsubscribe_absent_is_a_raise : forall t live,
+  remove_first t live = None -> run_cb (CbUnsub t) live = run_cb (CbRaise XValue) live.
+Proof. exact run_cb_unsub_absent. Qed.
+Print Assumptions C10_unsubscribe_absent_is_a_raise.
+
+Theorem C10_task_raise_class_step : forall f s o,
+  tstep (recls_tstate f s) (recls_op f o) = (recls_tstate f (fst (tstep s o)), snd (tstep s o)).
+Proof. exact tstep_recls. Qed.
+Print Assumptions C10_task_raise_class_step.
+
+Theorem C10_task_raise_class_inner_step : forall f c s o,
+  istep c (recls_tstate f s) (recls_iop f o) = (recls_tstate f (fst (istep c s o)), snd (istep c s o)).
+Proof. exact istep_recls. Qed.
+Print Assumptions C10_task_raise_class_inner_step.
+
+(* ---- a batch and its items as futures (BatchFut.v): item completions are nested in the batch's
+   completion (flush body, BatchBase._computed's item loop) ---- *)
+
+Theorem C10_batch_single_assignment : forall s oc, bout s = Some oc ->
+  (forall v, bstep s (BOn 0 (OSetValue v)) = (s, RRaise E_ALREADY)) /\
+  (forall e, bstep s (BOn 0 (OSetError e)) = (s, RRaise E_ALREADY)) /\
+  bstep s BFlush = (s, RRaise E_BATCHING) /\ bstep s BCancel = (s, RUnit).
+Proof. exact batch_single_assignment. Qed.
+Print Assumptions C10_batch_single_assignment.
+
+Theorem C10_item_single_assignment : forall t it oc o,
+  iout it = Some oc -> iset t it o = (it, [], RRaise E_ALREADY).
+Proof. exact iset_computed. Qed.
+Print Assumptions C10_item_single_assignment.
+
+Theorem C10_item_complete_notifies_once : forall t it o,
+  iout (fst (icomplete t it o)) = Some o /\
+  snd (icomplete t it o) = tnotes t (isubs it) o /\
+  isubs (fst (icomplete t it o)) = after_notify (isubs it).
+Proof. exact icomplete_spec. Qed.
+Print Assumptions C10_item_complete_notifies_once.
+
+Theorem C10_item_flush_body_sets : forall t os it,
+  let '(it', lg, rs, f) := iset_all t it os in
+  lg = body_notes t it os /\ iout it' = body_out it os /\
+  (f = None -> length os <= 1 /\ (iout it = None \/ os = []))%nat.
+Proof. exact iset_all_spec. Qed.
+Print Assumptions C10_item_flush_body_sets.
+
+Theorem C10_batch_item_loop : forall e l t,
+  snd (fill t l e) = fill_notes t l e /\
+  forallb icomputed (fst (fill t l e)) = true /\
+  map iout (fst (fill t l e)) = map (fun it => match iout it with Some o => Some o | None => Some (Err e) end) l.
+Proof. exact fill_spec. Qed.
+Print Assumptions C10_batch_item_loop.
+
+Theorem C10_batch_complete_notifies_once_last : forall s o,
+  let s' := bcomplete s o in
+  bout s' = Some o /\
+  blog s' = blog s ++ fill_notes 1 (bitems s) (fill_error o) ++ tnotes 0 (bsubs s) o /\
+  bsubs s' = after_notify (bsubs s) /\
+  forallb icomputed (bitems s') = true /\ bruns s' = bruns s /\ binner s' = binner s.
+Proof. exact bcomplete_spec. Qed.
+Print Assumptions C10_batch_complete_notifies_once_last.
+
+Theorem C10_batch_stable : forall s oc o, bout s = Some oc ->
+  let '(s', r) := bstep s o in
+  bout s' = Some oc /\ bitems s' = bitems s /\ blog s' = blog s /\ bruns s' = bruns s /\
+  (forall x, o = BOn 0 x -> is_read x = true -> r = breport x oc).
+Proof. exact bstep_computed. Qed.
+Print Assumptions C10_batch_stable.
+
+Theorem C10_batch_notify_once_after : forall s o, bout s = None ->
+  let s' := fst (bstep s o) in
+  (bout s' = None /\ blog s' = blog s /\ bitems s' = bitems s /\ bruns s' = bruns s) \/
+  (exists mid oc, bout s' = Some oc /\ blog s' = blog s ++ mid ++ tnotes 0 (bsubs s) oc /\
+                  bsubs s' = after_notify (bsubs s) /\
+                  forallb icomputed (bitems s') = true /\ (bruns s' <= S (bruns s))%nat).
+Proof. exact bstep_uncomputed. Qed.
+Print Assumptions C10_batch_notify_once_after.
+
+Theorem C10_batch_items_computed_with_batch : forall s o,
+  all_items_computed s -> all_items_computed (fst (bstep s o)).
+Proof. exact bstep_inv. Qed.
+Print Assumptions C10_batch_items_computed_with_batch.
+
+Theorem C10_item_read_reports : forall s i oc, item_out s i = Some oc ->
+  bstep s (BOn (S i) OValue) = (s, report_value oc) /\ bstep s (BOn (S i) OCall) = (s, report_value oc) /\
+  bstep s (BOn (S i) OError) = (s, report_error oc) /\ bstep s (BOn (S i) OIsComputed) = (s, RBool true).
+Proof. exact item_read_reports. Qed.
+Print Assumptions C10_item_read_reports.
+
+Theorem C10_batch_raise_class_step : forall f s o,
+  bstep (recls_bstate f s) (recls_bop f o) = (recls_bstate f (fst (bstep s o)), snd (bstep s o)).
+Proof. exact bstep_recls. Qed.
+Print Assumptions C10_batch_raise_class_step.
+
+Theorem C10_any_raise_class_irrelevant : forall f c, run_any (recls_case f c) = run_any c.
+Proof. exact any_raise_class_irrelevant. Qed.
+Print Assumptions C10_any_raise_class_irrelevant.
+
+Theorem C10_same_shape_same_result : forall c c',
+  recls_case (fun _ => XUser) c = recls_case (fun _ => XUser) c' -> run_any c = run_any c'.
+Proof. exact any_same_shape_same_result. Qed.
+Print Assumptions C10_same_shape_same_result.
